@@ -29,6 +29,8 @@
  *                            checked for framing, the block is decoded by nghttp2's inflater:
  *        R<status>/<es>/<op><name>:<value>,...  (op: s=set i=insert a=append; hex) -> "ok:<es>:<fields>" |
  *                            "rst" | "BADFRAMES.."
+ *        I<status>/0/<ops>   interim response through h2_send_1xx() / h2_send_headers_block()
+ *        T0/1/<ops>          response trailers through h2_send_end_stream_trailers() -> "ok:1:<fields>" | "data"
  *        C<n>  peer SETTINGS_HEADER_TABLE_SIZE (h2_parse_frame_settings)   -> "c"
  *        F<n>  peer SETTINGS_MAX_FRAME_SIZE                                 -> "f"
  *   req <maxfield> <item>...   request direction through h2_parse_frames() / h2_recv_continuation() /
@@ -581,7 +583,7 @@ static void op_resp(void) {
             if (h2c->sent_goaway) { SEP(); fputs("goaway", stdout); break; }
             continue;
         }
-        if (it[0] != 'R') { SEP(); fputs("bad-op", stdout); break; }
+        if (it[0] != 'R' && it[0] != 'I' && it[0] != 'T') { SEP(); fputs("bad-op", stdout); break; }
         char *p1 = strchr(it, '/'); if (!p1) { SEP(); fputs("bad-op", stdout); break; } *p1++ = 0;
         char *p2 = strchr(p1, '/'); if (!p2) { SEP(); fputs("bad-op", stdout); break; } *p2++ = 0;
         const int status = atoi(it + 1), es = atoi(p1);
@@ -590,10 +592,31 @@ static void op_resp(void) {
         r->x.h2.state = H2_STATE_HALF_CLOSED_REMOTE;
         r->state = CON_STATE_WRITE;
         r->conf.server_tag = srvtag ? &g_server_tag : NULL;
-        apply_hdr_ops(r, p2);
-        r->http_status = status;
-        r->resp_body_finished = es ? 1 : 0;
-        h2_send_headers(r, &g_con);
+        if (it[0] == 'T') {
+            /* response trailers "Name: value\r\n...\r\n" through h2_send_end_stream_trailers() */
+            buffer * const tb = buffer_init();
+            if (!(p2[0] == '-' && p2[1] == 0)) {
+                char *sv = NULL;
+                for (char *t = strtok_r(p2, ",", &sv); t; t = strtok_r(NULL, ",", &sv)) {
+                    char *c1 = strchr(t + 1, ':'); if (!c1) continue; *c1++ = 0;
+                    size_t kl, vl; unsigned char *kk = ltv_unhex(t + 1, &kl), *vv = ltv_unhex(c1, &vl);
+                    buffer_append_str2(tb, (char *)kk, kl, CONST_STR_LEN(": "));
+                    buffer_append_str2(tb, (char *)vv, vl, CONST_STR_LEN("\r\n"));
+                    free(kk); free(vv);
+                }
+            }
+            buffer_append_string_len(tb, CONST_STR_LEN("\r\n"));
+            r->http_status = 200;
+            h2_send_end_stream_trailers(r, &g_con, tb);
+            buffer_free(tb);
+        }
+        else {
+            apply_hdr_ops(r, p2);
+            r->http_status = status;
+            r->resp_body_finished = es ? 1 : 0;
+            if (it[0] == 'I') h2_send_1xx(r, &g_con);
+            else h2_send_headers(r, &g_con);
+        }
         size_t wl; unsigned char *w = wq_take(&wl);
         /* frames: HEADERS CONTINUATION* for this stream, END_HEADERS on the last only,
          * END_STREAM only on HEADERS, every frame within the peer's SETTINGS_MAX_FRAME_SIZE */
@@ -607,6 +630,7 @@ static void op_resp(void) {
             const uint32_t fid = (((uint32_t)w[o+5] << 24) | ((uint32_t)w[o+6] << 16) | ((uint32_t)w[o+7] << 8) | w[o+8]);
             if (wl - o - 9 < fl) { bad = 2; break; }
             if (ty == H2_FTYPE_RST_STREAM && 0 == nfr) { rst = 1; o += 9 + fl; continue; }
+            if (ty == H2_FTYPE_DATA && 0 == nfr && 0 == fl && fg == H2_FLAG_END_STREAM && fid == sid) { rst = 2; o += 9; continue; }
             if (done || fid != sid || fl > h2c->s_max_frame_size) { bad = 3; break; }
             if (0 == nfr) { if (ty != H2_FTYPE_HEADERS || (fg & ~(H2_FLAG_END_STREAM|H2_FLAG_END_HEADERS))) { bad = 4; break; }
                             fes = (fg & H2_FLAG_END_STREAM) ? 1 : 0; }
@@ -618,7 +642,7 @@ static void op_resp(void) {
         }
         if (!bad && !rst && !done) bad = 6;
         if (bad) { SEP(); printf("BADFRAMES%d", bad); }
-        else if (rst) { SEP(); fputs("rst", stdout); }
+        else if (rst) { SEP(); fputs(rst == 2 ? "data" : "rst", stdout); }
         else {
             struct fldlist ngf = {0};
             npb = pend_emit(&pu, pb);
@@ -707,9 +731,10 @@ static void op_req(void) {
         }
         else if (it[0] == 'H' || it[0] == 'h') {
             /* H<id>/<es>/<pad>/<dep>/<frags>/<keep> */
-            char *f[6]; int nf = 0; char *save = NULL;
-            for (char *t = strtok_r(it + 1, "/", &save); t && nf < 6; t = strtok_r(NULL, "/", &save)) f[nf++] = t;
-            if (nf != 6) { SEP(); fputs("bad-op", stdout); break; }
+            /* (an optional 7th field tells the model at which field the request parser gives up) */
+            char *f[7]; int nf = 0; char *save = NULL;
+            for (char *t = strtok_r(it + 1, "/", &save); t && nf < 7; t = strtok_r(NULL, "/", &save)) f[nf++] = t;
+            if (nf < 6) { SEP(); fputs("bad-op", stdout); break; }
             const uint32_t id = (uint32_t)strtoul(f[0], NULL, 10);
             const int es = atoi(f[1]);
             const int padded = f[2][0] != '-', prio = f[3][0] != '-';
